@@ -114,7 +114,9 @@ def run_kani(scratch, names, jobs, timeout, extra=None):
     for n in names:
         cmd += ['--harness', n]
     cmd += extra or []
-    env = dict(os.environ, CARGO_NET_OFFLINE='true')
+    # CBMC writes its CNF for the external SAT solver into TMPDIR (GBs, left behind when a run is killed): keep it inside the scratch copy
+    os.makedirs(os.path.join(scratch, '.tmp'), exist_ok=True)
+    env = dict(os.environ, CARGO_NET_OFFLINE='true', TMPDIR=os.path.join(scratch, '.tmp'))
     t0 = time.time()
     so, se, _rc, to = procgrp.run(cmd, timeout, cwd=scratch, env=env)
     return so + '\n' + se, to, time.time() - t0
@@ -126,7 +128,8 @@ def playback(src_root, h, timeout=600, features=None):
     try:
         cmd = ['cargo', 'kani', '--target-dir', os.path.join(CACHE, 'kani-target'), '--exact', '--harness', full_name(h),
                '-Z', 'concrete-playback', '--concrete-playback=print'] + list(h.get('extra', []))
-        env = dict(os.environ, CARGO_NET_OFFLINE='true')
+        os.makedirs(os.path.join(scratch, '.tmp'), exist_ok=True)
+        env = dict(os.environ, CARGO_NET_OFFLINE='true', TMPDIR=os.path.join(scratch, '.tmp'))
         so, _se, _rc, to = procgrp.run(cmd, timeout, cwd=scratch, env=env)
         if to:
             return None
